@@ -3,7 +3,7 @@ CFG = {
     "audit": "Norad/Audit/C12.lean",
     "extract": "glif_parser",
     "rule": ("glif documents composed from legal building blocks (every element kind, both format versions, random element and "
-             "attribute order) with each of 46 violation / variation kinds injected at random applicable positions (2 per kind and base "
+             "attribute order) with each of 52 violation / variation kinds (among them: element and attribute names that only resemble a known name - namespace prefix, colon, case, a kept blank or control character - at every level and in both tag forms) injected at random applicable positions (2 per kind and base "
              "document in quick, 3 in thorough), a second independent violation on top in 1 of 12, plus text-level damage "
              "(truncation, BOM, DOCTYPE, mismatched end tag, trailing content); every document goes through Glyph::parse_raw and "
              "through quick-xml 0.37 with norad's reader configuration (events -> model). non-trivial = the document has more than "
@@ -36,7 +36,7 @@ MANIFEST = {
              "upgrade, legal_accepted for a generative grammar of format-2 documents (any item order, comments anywhere, any attribute order, any spelling that reads "
              "back), legal_accepted_v1 for its format-1 part, and the link from the table-driven specification: judge_clean_accepted (Spec.judge rd d = ([], false) for a document of the shape the tokeniser delivers gives parseGlif rd (Spec.flatten d) = .ok _, formats 1 and 2, under ReadsNumerals) and, for a fragment of the converse, judge_hard_error_rejected (clean items up to a position, then an unknown element, a format-2-only element in format 1, an unknown attribute on a body element or a lib that is not a dictionary: rejected). "
              "SOURCE-LEVEL TIE: tools/extract_glif_parser.py re-reads src/glyph/parse.rs on every run (attribute names per loop, required attributes and guideline "
-             "shapes, element dispatch per level, format-1 refusals, once-only guards, defaults, level error variants, comment skipping); nine audited source_* theorems "
+             "shapes, element dispatch per level, format-1 refusals, once-only guards, defaults, level error variants, comment skipping, and WHICH name each comparison reads: name() / attr.key, never local_name()); ten audited source_* theorems "
              "state that these tables are the model's (each model table is proved, for all strings, to characterise its function) and the specification's. "
              "Behavioural tie: ~20k generated documents per run through Glyph::parse_raw vs the compiled model on the quick-xml event list, plus the independent "
              "shaped-document specification (Spec/C12.lean) evaluated on the implementation's own verdict and on the returned glyph."),
